@@ -23,7 +23,7 @@ Qed.
 Lemma rel_map_nonempty l : l <> [] -> simple (GMap l) = true -> ~ rel (GMap l) (GMap []).
 Proof.
   intros Hne Hs R. pose proof (even_simple_map l Hs) as Ev. destruct l as [|k [|v r]]; [contradiction|discriminate|].
-  inversion R as [| | | | | | |? ? lp P F _]; subst. cbn [pairs] in F. inversion F; subst.
+  inversion R as [| | | | | | | |? ? lp P F _]; subst. cbn [pairs] in F. inversion F; subst.
   apply Permutation_sym, Permutation_nil in P. discriminate.
 Qed.
 
